@@ -13,7 +13,7 @@ RULE = (
     "each law is compared with an independent Hamilton-product / homogeneous-matrix model. Non-trivial = at least one operand "
     "has a component outside the repository suite's sampling box [0,1)^k; distinct = hash of the drawn case."
 )
-BUDGET = {"quick": 16 * 2500, "thorough": 16 * 100000}
+BUDGET = {"quick": 16 * 5000, "thorough": 16 * 100000}
 TOLERANCES = {
     "translation": "1e-11*(1+S)*nfactors, S = max |translation| among operands (and S^2-free: compositions are linear in S)",
     "rotation": "1e-12 (quaternion up to global sign; SE(2) angle modulo 2*pi)",
@@ -220,6 +220,28 @@ def check(case, ctx):
     p2 += d
     if gs.bits(p2) != gs.bits(bp) or type(p2) is not cls:
         return ctx.fail("iadd", "p += delta differs from p + delta")
+
+    # ---- history: a pose is an ndarray and may legitimately be modified in place (normalize() does); results must
+    #      follow the current contents (no value cached on the instance by an earlier call)
+    a2 = a.copy()
+    _ = a2.inverse, a2 + b, a2 - b, a2 + pt
+    arr = np.asarray(a2)
+    arr[0] = arr[0] * 0.5 + 1.25
+    if k == "se3":
+        arr[3:] = arr[3:] * 2.0
+        a2.normalize()
+    elif k == "se2":
+        arr[2] = -0.5 * arr[2]
+    ra2 = gs.stored(a2)
+    S2 = max(S_, abs(ra2[0]))
+    if _cmp_pose(ctx, "stale-after-in-place-change", "inverse after in-place change", k, a2.inverse, R.inv(k, ra2), S2, 2):
+        return
+    if _cmp_pose(ctx, "stale-after-in-place-change", "a+b after in-place change", k, a2 + b, R.mul(k, ra2, rb), S2, 2):
+        return
+    if _cmp_pose(ctx, "stale-after-in-place-change", "a-b after in-place change", k, a2 - b, R.ominus(k, ra2, rb), S2, 4):
+        return
+    if ctx.check_close("stale-after-in-place-change", "a+point after in-place change", gs.stored(a2 + pt), [R.val(x) for x in R.act(k, ra2, rpt)], 1e-11 * (1 + S2) * 2):
+        return
 
     # ---- operands untouched -----------------------------------------------------------------------
     if (gs.bits(a), gs.bits(b), gs.bits(c), gs.bits(pt)) != (a0, b0, c0, pt0):
